@@ -238,6 +238,13 @@ func (r *RolloutReconciler) reconcileRolloutTerminating(rollout *v1beta1.Rollout
 		klog.Errorf("rollout(%s/%s) get workload failed: %s", rollout.Namespace, rollout.Name, err.Error())
 		return nil, err
 	}
+	if workload != nil && !workload.IsStatusConsistent {
+		// the finder returns an empty workload in this case: its revision label key would be missing
+		// and the stable service would be left pinned
+		klog.Infof("rollout(%s/%s) workload status is inconsistent, then wait a moment", rollout.Namespace, rollout.Name)
+		expectedTime := time.Now().Add(time.Duration(defaultGracePeriodSeconds) * time.Second)
+		return &expectedTime, nil
+	}
 	c := &RolloutContext{Rollout: rollout, NewStatus: newStatus, Workload: workload, FinalizeReason: v1beta1.FinaliseReasonDelete}
 	done, err := r.doFinalising(c)
 	if err != nil {
